@@ -546,7 +546,9 @@ class C01:
             "collect-at-every-allocation and a PRNG collection tape (rate 1/2, 1/8 or 1/64), all with quarantine (monitors: use after "
             "reclaim on every managed dereference, nothing reclaimed while borrowed), then on the plain checked build (collects at "
             "every allocation and really frees: address reuse), and 1/24 of the cases on that build under valgrind memcheck; every "
-            "run is compared with the never-collect run. non-trivial = the always run reclaimed >= 1 object and the case has >= 1 "
+            "run is compared with the never-collect run. In addition every script of the repository's test corpus and 400 (thorough: 40 000) generated programs that "
+            "call every built-in method and operator with awkward arguments (C10's NAT generator) - programs nobody wrote with the collector in mind - "
+            "run under the same schedules and monitors (printed lines, outcome and error messages compared, addresses masked). non-trivial = the always run reclaimed >= 1 object and the case has >= 1 "
             "chain; distinct = distinct program hash" % (len(ROOTS), len(OPS) + len(FAIL_OPS), len(FAIL_OPS)))
     COMPONENTS = {"real": ["yarel compiler", "VM", "heap: mark_roots/trace_references/sweep and every GcManaged impl", "Root/UniqueRoot handles", "core library"],
                   "stub": ["collection pacing decision (never / always / tape) and reclamation (quarantine instead of free) via verif_hooks",
@@ -560,17 +562,105 @@ class C01:
         return ["checked+hooks", "checked"]
 
     def plan(self, tier):
-        return 6000 if tier == "quick" else 500000
+        return self.n_foreign(tier) + (6000 if tier == "quick" else 500000)
+
+    def n_foreign(self, tier):
+        """programs nobody wrote with the collector in mind: the repository's whole script corpus plus generated programs
+        that call every built-in with awkward arguments (the NAT generator of C10), all run under the same schedules"""
+        from . import c10
+        return len(c10.scripts()[0]) + (400 if tier == "quick" else 40000)
 
     def wall_cap(self, tier):
         return 240 if tier == "quick" else 3300
 
     def generate(self, seed, idx, tier):
+        nf = self.n_foreign(tier)
+        if idx < nf:
+            from . import c10
+            ns = len(c10.scripts()[0])
+            rng = Rng(derive(seed, "C01-foreign", idx))
+            sc = {"case": "script", "index": idx} if idx < ns else {"case": "nat", "nseed": derive(seed, "C01-NAT", idx - ns)}
+            sc["gc_tape"] = tape_hex(rng, rng.choice([2, 8, 64]))
+            return sc
+        idx -= nf           # (the generated heap-shape programs keep the seeds they had before the foreign families were added)
         cseed = derive(seed, "C01", idx)
         rng = Rng(derive(cseed, "gc"))
         return {"ir": gen_ir(cseed), "gc_rate": rng.choice([2, 8, 64]), "gc_tape": tape_hex(rng, rng.choice([2, 8, 64]))}
 
+    def check_foreign(self, sc, ctx):
+        """a corpus script or a NAT program under never / always / tape (quarantine, monitors) and on the plain checked build"""
+        from . import c10
+        stats = Stats()
+        fam = sc["case"]
+        fs = {}
+        if fam == "script":
+            lst, fs = c10.scripts()
+            name, src = lst[sc["index"]]
+            base_cfg = {"display": True}
+        else:
+            name, src = "nat", c10.nat_program(sc["nseed"])
+            base_cfg = {}
+        src = sc.get("source", src)         # (a minimised replay file carries its own text)
+        one = {"programs": [{"kind": "snippet", "source": src}], "tape": [], "faults": {}, "fs": fs}
+        stats.inc("scenarios")
+        stats.inc("foreign:" + fam)
+        res = {"stats": stats, "nontrivial": False, "key": stable_hash([fam, src]), "scenario": dict(sc, source=src, name=name)}
+
+        def view(hh):
+            return [(c10.norm_events(p_["events"]), c10.norm_outcome(p_["outcome"])) for p_ in hh["programs"]]
+        ref = ctx.run("checked+hooks", dict(one, config=dict(base_cfg, gc={"mode": "never", "quarantine": True})))
+        stats.inc("executions")
+        po = process_outcome(ref)
+        if po:
+            # a script of the corpus that stops the process without any collection is not this property's business
+            stats.inc("foreign_reference_aborts")
+            return res
+        ref_view = view(ref)
+        stats.inc("events", sum(len(v_[0]) for v_ in ref_view))
+        stats.inc("allocations", (ref.get("gc") or {}).get("allocs", 0))
+        if fam == "nat" and ref["programs"][0]["outcome"].get("err") == "CompileError":
+            return {"stats": stats, "nontrivial": False, "invalid": "NAT program does not compile"}
+        runs = [("always", "checked+hooks", dict(base_cfg, gc={"mode": "always", "quarantine": True})),
+                ("tape", "checked+hooks", dict(base_cfg, gc={"mode": "tape", "tape": sc.get("gc_tape", ""), "quarantine": True})),
+                ("real-free", "checked", dict(base_cfg))]
+        for label, build, cfg in runs:
+            h = ctx.run(build, dict(one, config=cfg))
+            stats.inc("executions")
+            gc = h.get("gc") or {}
+            if label != "real-free":
+                stats.inc("collections:" + label, gc.get("collections", 0))
+                stats.inc("reclaimed:" + label, gc.get("quarantined", 0))
+                if label == "always" and gc.get("quarantined", 0) > 0:
+                    res["nontrivial"] = True
+            v = None
+            po = process_outcome(h)
+            if po:
+                v = {"class": po[0], "msg": po[1]}
+            elif gc.get("uar_count", 0) > 0:
+                v = {"class": "use-after-reclaim", "msg": "%d use(s) of reclaimed objects; first: %s" % (gc["uar_count"], json.dumps(gc.get("uar", [])[:3]))}
+            else:
+                cur = view(h)
+                if cur != ref_view:
+                    a, b = ref_view[0], cur[0]
+                    i = next((j for j in range(min(len(a[0]), len(b[0]))) if a[0][j] != b[0][j]), min(len(a[0]), len(b[0])))
+                    if a[0] == b[0]:
+                        msg = "outcome: never-collect %s, %s %s" % (json.dumps(a[1])[:250], label, json.dumps(b[1])[:250])
+                    else:
+                        msg = "event %d: never-collect %s, %s %s" % (i, json.dumps(a[0][i] if i < len(a[0]) else None)[:300], label,
+                                                                     json.dumps(b[0][i] if i < len(b[0]) else None)[:300])
+                    v = {"class": "output-depends-on-collector", "msg": msg}
+            if v:
+                v["config"] = build
+                v["msg"] = "[%s/%s %s] %s" % (fam, name, label, v["msg"])
+                res["violation"] = v
+                return res
+        if res["nontrivial"]:
+            stats.inc("foreign_programs_in_which_objects_were_reclaimed")
+        return res
+
     def check(self, sc, ctx):
+        if sc.get("case") in ("script", "nat"):
+            return self.check_foreign(sc, ctx)
         stats = Stats()
         ir = sc["ir"]
         try:
@@ -705,6 +795,21 @@ class C01:
 
     def shrink(self, sc):
         import copy
+        if sc.get("case") in ("script", "nat"):
+            lines = (sc.get("source") or "").split("\n")
+            n = len(lines)
+            chunk = max(1, n // 8)
+            while n > 1 and chunk >= 1:
+                for lo in range(0, n, chunk):
+                    cand = lines[:lo] + lines[lo + chunk:]
+                    if cand:
+                        yield dict(sc, source="\n".join(cand))
+                if chunk == 1:
+                    break
+                chunk //= 2
+            for t in thin_tape(sc.get("gc_tape", "")):
+                yield dict(sc, gc_tape=t)
+            return
         ir = sc["ir"]
         gs = ir["gadgets"]
         for i in range(len(gs) - 1, -1, -1):
@@ -746,6 +851,7 @@ class C01:
                 "edge_x_target_pairs_exercised": len(pairs), "edge_x_target_pairs_possible": len(EDGES) * len(TARGETS),
                 "collections": {k[len("collections:"):]: v for k, v in stats.items() if k.startswith("collections:")},
                 "objects_reclaimed": {k[len("reclaimed:"):]: v for k, v in stats.items() if k.startswith("reclaimed:")},
+                "foreign_programs": {k[len("foreign:"):]: v for k, v in stats.items() if k.startswith("foreign")},
                 "logical_time": {"allocations_reference_run": stats.get("allocations", 0), "events": stats.get("events", 0)}}
 
 
